@@ -3,7 +3,7 @@
  * for small tables), so that counters and table slots are observable.
  *   glyph exec <ops_in> <impl_out>
  * one history per line:  hist <hashsize> <high> <low> F T I:f:k L:f:k R:f:k U:f:k ...
- * A lookup that does not terminate is observed through an interval timer ("H | HANG"). */
+ * A lookup that does not terminate is observed through an CPU-time interval timer ("H | HANG"). */
 #include "pixman-glyph.c"
 #include <stdio.h>
 #include <string.h>
@@ -13,7 +13,7 @@
 
 static sigjmp_buf jb;
 static void on_alarm(int s){ (void)s; siglongjmp(jb,1); }
-static void arm(int ms){ struct itimerval it={{0,0},{ms/1000,(ms%1000)*1000}}; setitimer(ITIMER_REAL,&it,NULL); }
+static void arm(int ms){ struct itimerval it={{0,0},{ms/1000,(ms%1000)*1000}}; setitimer(ITIMER_VIRTUAL,&it,NULL); }
 
 #define MAXOPS 4096
 static glyph_t *ids[MAXOPS];   /* glyph object created by the i-th operation */
@@ -24,7 +24,7 @@ int main(int argc,char**argv)
 {
     if (argc<4 || strcmp(argv[1],"exec")) { fprintf(stderr,"usage: glyph exec <ops> <out>\n"); return 2; }
     FILE *fi=fopen(argv[2],"r"),*fo=fopen(argv[3],"w"); if(!fi||!fo) return 2;
-    signal(SIGALRM,on_alarm);
+    signal(SIGVTALRM,on_alarm);
     static uint32_t px[4]={0xff,0,0,0};
     pixman_image_t *img=pixman_image_create_bits(PIXMAN_a8,1,1,px,4);
     static uint32_t dpx[16];
